@@ -95,7 +95,7 @@ def make_ops():
     A(dict(op="pow", x=0, y=1, dest=2))
     A(dict(op="pow", x=4, y=3, dest=2))
     for x in (0, 3, 4):
-        for o in ("+n", "n-", "*n", "n/", "**n"):
+        for o in ("+n", "n-", "*n", "n/", "**n", "0+", "+0", "sum1", "sum2", "*1", "1*", "/1", "**1", "-0"):
             A(dict(op="num", x=x, o=o, dest=2))
     for x in (0, 1, 3, 4):
         for o in ("neg", "abs", "absm", "sign", "copy", "full_like"):
@@ -216,7 +216,12 @@ def apply_op(st, op, check):
             return r[op["x"]] ** r[op["y"]].sign()
         if name == "num":
             x = r[op["x"]]
-            return {"+n": lambda: x + 2, "n-": lambda: 2.5 - x, "*n": lambda: x * 3, "n/": lambda: 2 / (x + 1000.0), "**n": lambda: x**2}[op["o"]]()
+            return {
+                "+n": lambda: x + 2, "n-": lambda: 2.5 - x, "*n": lambda: x * 3, "n/": lambda: 2 / (x + 1000.0), "**n": lambda: x**2,
+                # neutral elements: the result equals the source but must still be an independent array
+                "0+": lambda: 0 + x, "+0": lambda: x + 0.0, "sum1": lambda: sum([x]), "sum2": lambda: sum([x, x]), "*1": lambda: x * 1,
+                "1*": lambda: 1.0 * x, "/1": lambda: x / 1, "**1": lambda: x**1, "-0": lambda: x - 0,
+            }[op["o"]]()
         if name == "un":
             x = r[op["x"]]
             return {"neg": lambda: -x, "abs": lambda: abs(x), "absm": lambda: x.abs(), "sign": lambda: x.sign(), "copy": lambda: x.copy(), "full_like": lambda: FlodymArray.full_like(x, 2.5)}[op["o"]]()
